@@ -26,24 +26,26 @@ def _solver(timeout_ms: int) -> z3.Solver:
 
 
 _FEAS_CACHE: dict = {}
+CROSS_TIMEOUT_MS = 5000
 
 
-def feasible(pc, extra=None, timeout_ms: int = FEAS_TIMEOUT_MS) -> bool:
-    """Path pruning only: unknown counts as feasible (sound: never drops a path)."""
-    key = (tuple(c.get_id() for c in pc), extra.get_id() if extra is not None else None)
+def feasible(pc, extra=None, timeout_ms: int = FEAS_TIMEOUT_MS, full: bool = False) -> bool:
+    """Path pruning only: unknown counts as feasible (sound: never drops a path).  full=True keeps quantified premises
+    (used by the vacuity guard, where a contradiction hidden in a quantified precondition must be seen)."""
+    key = (tuple(c.get_id() for c in pc), extra.get_id() if extra is not None else None, full)
     hit = _FEAS_CACHE.get(key)
     if hit is not None:
         return hit[0]
-    r = _feasible(pc, extra, timeout_ms)
+    r = _feasible(pc, extra, timeout_ms, full)
     _FEAS_CACHE[key] = (r, pc, extra)       # keep the terms alive so ids stay unique
     return r
 
 
-def _feasible(pc, extra, timeout_ms) -> bool:
+def _feasible(pc, extra, timeout_ms, full=False) -> bool:
     t = time.time()
     s = _solver(timeout_ms)
     for c in pc:
-        if z3.is_quantifier(c):
+        if z3.is_quantifier(c) and not full:
             continue          # pruning only: dropping a premise can only keep more paths (sound), and keeps these checks cheap
         s.add(c)
     if extra is not None:
@@ -128,7 +130,9 @@ def prove(pc, goal, timeout_ms: int | None = None, use_cvc5: bool = True, both: 
         smt2 = s.to_smt2()
     except Exception as e:  # pragma: no cover
         return ("discharged" if r == z3.unsat else "unknown"), None, "z3", dt * 1000, f"smt2 dump failed: {e}"
-    c = _cvc5_check(smt2, timeout_ms)
+    # cross-check of an obligation z3 already proved: a short cvc5 budget (its verdict cannot take the proof away,
+    # only a `sat` would be reported as a disagreement); an obligation z3 left open gets the full budget
+    c = _cvc5_check(smt2, min(timeout_ms, CROSS_TIMEOUT_MS) if r == z3.unsat else timeout_ms)
     dt2 = time.time() - t2
     if r == z3.unsat:
         # thorough tier: both solvers; cvc5 'unknown' does not take away z3's proof,
